@@ -28,6 +28,9 @@ SPAS = [
     (b"SPA30:31:32:33:34:35", "", ("10.0.0.14", 10022)),
     (b"SPA\xe9\x01\xfe:27", "Latin id", ("10.0.0.15", 10022)),  # identifier bytes >= 0x80 (latin-1 text on the API side)
 ]
+# a neighbourhood full of spas (indices 5..29)
+SPAS += [(b"SPA40:41:42:43:44:%02d" % k, "Spa %d%s" % (k, "|x" if k % 7 == 0 else ""), ("10.0.0.%d" % (40 + k), 10022)) for k in range(25)]
+NBASE = 5  # the generators below draw from the first five; the neighbourhood is used by the many-spa plans only
 LAT = [0.05, 0.95, 3.95, 4.05, 9.95, 10.05]
 FILTERS = ["none", "address", "id", "other-id", "address+id", "subnet"]
 
@@ -111,7 +114,17 @@ def _run(ch, spas, filt, window, hdelay=0.0, stall=0.0):
             return "spa_identifier" not in kw or kw["spa_identifier"] == r.id.decode("latin1")
 
         acc = [(a, r) for a, r in arrivals if passes(r)]
+        acc_arr = list(acc)
         slack = POLL * (3 + min(n_dgrams, 8)) + window * 2 + stall * (4 + min(n_dgrams, 8)) + hdelay * len(rs)
+        if n_dgrams > 8:
+            # many replies: the consumer takes ONE datagram per polling interval, so a reply is looked at when everything
+            # that arrived before it has been (reference queue model); the fixed slack then only covers polling phase
+            done, served = 0.0, []
+            for a, r in arrivals:
+                done = max(a, done) + POLL + stall
+                served.append((done, r))
+            acc = [(d_, r) for d_, r in served if passes(r)]
+            slack = POLL * 3 + window * 2 + stall * 4 + hdelay * len(rs)
         listed = loc.spas
         ids = [d.identifier for d in listed]
         if len(set(ids)) != len(ids):
@@ -124,7 +137,7 @@ def _run(ch, spas, filt, window, hdelay=0.0, stall=0.0):
             elif d.name != r.name or (d.ipaddress, d.port) != r.addr:
                 why = ("fields", f"descriptor {d.identifier!r}: name {d.name!r} address {(d.ipaddress, d.port)}, "
                                  f"responder has {r.name!r} {r.addr}")
-            elif not any(a <= t_ret + 1e-9 for a, rr in acc if rr is r):
+            elif not any(a <= t_ret + 1e-9 for a, rr in arrivals if rr is r):
                 why = ("phantom", f"listed {d.identifier!r} whose reply had not arrived")
         must = {r.id for a, r in acc if a <= t_ret - slack}
         # reply loss: a spa that answers every request it hears, and whose reply to the FIRST request only was lost, is
@@ -148,8 +161,13 @@ def _run(ch, spas, filt, window, hdelay=0.0, stall=0.0):
                 why = ("late", f"returned after {t_ret:.2f}s, discovery timeout is {T_MAX}s")
             elif t_ret > exp + slack + 1e-9:
                 why = ("late", f"returned after {t_ret:.2f}s, expected about {exp:.2f}s (+{slack:.1f})")
-            elif t_ret < exp - 1e-9:
-                why = ("early", f"returned after {t_ret:.2f}s, before {exp:.2f}s")
+            else:
+                # "early" is judged against the arrival itself (the queue model above is an upper bound)
+                fa = acc_arr[0][0] if acc_arr else None
+                exp_e = T_MAX if (fa is None or fa > T_MAX) else (fa if filtered else max(T_INIT, fa))
+                exp_e = min(exp_e, T_MAX)
+                if t_ret < exp_e - 1e-9:
+                    why = ("early", f"returned after {t_ret:.2f}s, before {exp_e:.2f}s")
         if why is None:
             for tr in net.transports:
                 if not tr.closed:
@@ -202,11 +220,11 @@ def run(ctx):
     lats2 = LAT
     for f in FILTERS:
         plans.append(((), f, 0.0))
-        for i in range(len(SPAS)):
+        for i in range(NBASE):
             for lat in LAT:
                 for m in (1, 2):
                     plans.append((((i, lat, m),), f, 0.0))
-        for i, j in itertools.permutations(range(len(SPAS)), 2):
+        for i, j in itertools.permutations(range(NBASE), 2):
             for la, lb in itertools.product(lats2, repeat=2):
                 plans.append((((i, la, 1), (j, lb, 1)), f, 0.0))
                 if la == lb:
@@ -225,6 +243,12 @@ def run(ctx):
             for la in (0.05, 3.95, 9.5):
                 plans.append((((0, la, 1),), f, 0.0, 0.0, st))
                 plans.append((((3, la, 1), (1, 0.05, 2)), f, 0.0, 0.0, st))
+    # many spas answering every request in the same tick (more replies pending at once than any small backlog bound)
+    for f in ("none", "id", "other-id"):
+        for count in (12, 17, 20, 25):
+            for m in (1, 2):
+                # with an id filter the requested spa is the LAST to answer in every round
+                plans.append((tuple([(5 + count - 1, 0.06, m)] + [(5 + k, 0.05, m) for k in range(count - 1)]), f, 0.0))
     # heavy reply multiplicity: more datagrams per second than the consumer drains
     for f in FILTERS:
         for m in (8, 12):
@@ -233,7 +257,7 @@ def run(ctx):
             plans.append((((1, 0.95, m), (3, 0.05, 1)), f, 0.0))
     # reply loss: the reply to the first request (or the first two) of one spa is lost, alone and next to a spa that is heard at once
     for f in FILTERS:
-        for i in range(len(SPAS)):
+        for i in range(NBASE):
             for k in (1, 2):
                 for lat in (0.05, 0.95):
                     plans.append((((i, lat, 1, k),), f, 0.0))
